@@ -17,7 +17,8 @@ CHECKS = {
             ("R-EXTENT.tmp", "r_extent", "run", ("quick", "thorough")),
             ("R-NORM", "r_norm", "run", ("quick", "thorough")),
             ("R-ALLOC.blockmove", "r_alloc", "run_blockmove", ("quick", "thorough")),
-            ("R-BUFGROW", "r_alloc", "run_bufgrow", ("quick", "thorough"))],
+            ("R-BUFGROW", "r_alloc", "run_bufgrow", ("quick", "thorough")),
+            ("R-SIGN.alloc", "r_sign", "run_realloc", ("quick", "thorough"))],
     "C05": [("R-ALIAS", "r_alias", "run", ("quick", "thorough")),
             ("R-CONSTSRC.ir", "r_constsrc", "run", ("quick", "thorough")),
             ("R-OVERLAP.contract", "r_ovcontract", "run", ("quick", "thorough"))],
@@ -102,6 +103,7 @@ RULES = {
     "R-SIGN.c07": ("r_sign", "run_c07"),
     "R-DENONE": ("r_sign", "run_den_one"),
     "R-ORDER": ("r_order", "run"),
+    "R-SIGN.alloc": ("r_sign", "run_realloc"),
 }
 
 EXPLANATION = {
@@ -218,6 +220,9 @@ EXPLANATION = {
 }
 
 ASSUMPTIONS = {
+    "R-SIGN.alloc": ["R-SIGN's sign domain over every function of mpz/ mpq/ mpf/ that compares a quantity with an _mp_alloc field (the growth test of "
+                     "MPZ_REALLOC and its hand-written forms); only signs that come from operand objects count as the caller's free choice - a "
+                     "scalar size argument is bound by the function's own contract (mpz_limbs_write (x, n) requires n > 0)"],
     "R-ORDER": ["well-formed operands: |n| = 1 implies limb 0 >= 1; the limb of a zero is not part of its value", "LP64 limits of short / int / "
                 "long (the pinned ABI); the exact answers per cell are arithmetic facts computed in Python integers",
                 "integers are evaluated as mathematical integers; a conversion to an unsigned type of a negative value wraps modulo 2^width; "
